@@ -111,6 +111,14 @@ def run(ctx):
                 ctx.case(key=('scale', smp, sp), nontrivial=True)
                 ctx.check(F.is_wellformed(Ys_, shp) and np.abs(F.dense(Ys_) / 2.0 ** sp - v1).max() <= 1e-10 * (1 + np.abs(v1).max()), 'anova:scale',
                           'order-1 ANOVA of the samples times 2^%d is not 2^%d times the order-1 tensor' % (sp, sp), case=case)
+            # ---- "up to the requested noise": a requested noise of exactly zero (absolute or relative) gives the exact model,
+            #      whatever the other noise argument says
+            a0 = teneva.ANOVA(I, y, order=1, seed=1)
+            for kwn in (dict(noise=0.), dict(rel_noise=0), dict(rel_noise=0., noise=1e-2), dict(noise=0., rel_noise=None)):
+                Y0n = a0.cores(r=3, **kwn)
+                ctx.case(key=('zero-noise', smp, repr(kwn)), nontrivial=True)
+                ctx.check(F.is_wellformed(Y0n, shp) and np.abs(F.dense(Y0n) - v1).max() <= 1e-13 * (1 + np.abs(v1).max()), 'anova:noise',
+                          'ANOVA.cores(r=3, %s) deviates from f0 + sum f1 by %.3g although zero noise was requested' % (kwn, np.abs(F.dense(Y0n) - v1).max() if F.is_wellformed(Y0n, shp) else -1), case=case)
             # ---- one ANOVA object used repeatedly: every cores() request is answered from the fitted model alone
             if d >= 3:
                 first = F.dense(teneva.ANOVA(I, y, order=2, seed=1).cores(r=6, noise=0.))       # a fresh object's answer
